@@ -351,6 +351,23 @@ func (b *band) AddChannel(frequency uint32, minDR, maxDR int) error {
 		}
 	}
 
+	// the frequency must be one that NewChannelReq can carry: a multiple of
+	// 100 Hz that fits 24 bits, from 2.4 GHz on a multiple of 200 Hz (see
+	// NewChannelReqPayload). A frequency of 0 marks an unused channel.
+	freq := frequency
+	if freq >= 2400000000 {
+		freq = freq / 2
+	}
+	if freq/100 >= (1 << 24) {
+		return errors.New("lorawan/band: frequency does not fit the 24 bit frequency field of the mac-commands")
+	}
+	if frequency%100 != 0 {
+		return errors.New("lorawan/band: frequency must be a multiple of 100")
+	}
+	if frequency >= 2400000000 && frequency%200 != 0 {
+		return errors.New("lorawan/band: frequency must be a multiple of 200 for 2.4GHz frequencies")
+	}
+
 	c := Channel{
 		Frequency: frequency,
 		MinDR:     minDR,
